@@ -90,7 +90,7 @@ def diagnostics(ctx):
     ops = []
     for k in ("obl", "const", "limit", "map", "scalario", "mapcall"):
         ops += [f"{k} {i}" for i in range(int(c.get(k, 0)))]
-    ops += ["classify", "handles", "genfiles", "archreport", "wirereport"]
+    ops += ["classify", "handles", "genfiles", "listencheck", "conncheck", "archreport", "wirereport"]
     ans = drv(ctx, ops, "c19diag") or []
     n = 0
     for op, a in zip(ops, ans):
